@@ -37,6 +37,24 @@ def run(ctx):
         t = F.blocks[sinks[0][0]].term
         ctx.ob('C16.r1', F.name, 'hashes marked missing are the response\'s missing list checked against the request',
                du.from_call(t.args[1], lambda k: k.endswith('missing_block_hashes') or k.endswith('missing_tx_hashes')), at=t.span)
+    # F32: add_fetched_tx stores the transaction bytes as they are and get_transaction parses them strictly: every
+    # transaction of the response passes the strict (compatible = false) molecule verification before anything is stored
+    T = ctx.body(TP + '::execute_internally')
+    tsinks = ctx.sites(T, 'Storage::add_fetched_tx', 1)
+    strict = []
+    for c in P.closures_of(T, transitive=False):
+        for _, k, t in P.call_keys(c):
+            if k.endswith('TransactionReader as Reader>::verify') and len(t.args) == 2 and t.args[1].strip() == 'const false':
+                strict.append(c)
+    tags = [re.search(r'\[closure@([^\]]+)\]', c.sig_args).group(1) for c in strict]
+
+    def strict_scan(k, t):
+        return k.endswith('Iterator>::find_map') and any(('closure@' + g) in t.callee for g in tags)
+    scans = P.call_sites(T, strict_scan)
+    ctx.ob('C16.r1', T.name, 'every transaction of the response is verified strictly (TransactionReader::verify(.., false)) before it is stored',
+           bool(scans), closures=[c.name for c in strict])
+    if scans:
+        ctx.guard('C16.r1', T, strict_scan, 'None', tsinks, unconditional=False, gname='transactions().find_map(strict verify error)')
     # proof requests go to proven peers
     for fn in ('Peers::update_blocks_proof_request', 'Peers::update_txs_proof_request'):
         for caller in P.callers_of(fn):
